@@ -251,7 +251,7 @@ def canon_key(ex, obs=None) -> str:
             if i not in m.nodes:
                 continue
             ref = None
-            for reg in (ws._groups, ws._objects, ws._data):  # pylint: disable=protected-access
+            for reg in (getattr(ws, "_groups", {}), getattr(ws, "_objects", {}), getattr(ws, "_data", {})):
                 r = reg.get(ex.uid[i])
                 if r is not None:
                     ref = r()
@@ -267,7 +267,7 @@ def canon_key(ex, obs=None) -> str:
             )
         regs = [
             [sum(1 for r in reg.values() if r() is not None), sum(1 for r in reg.values() if r() is None)]
-            for reg in (ws._groups, ws._objects, ws._data, ws._types, ws._property_groups)  # pylint: disable=protected-access
+            for reg in (getattr(ws, n, {}) for n in ("_groups", "_objects", "_data", "_types", "_property_groups"))
         ]
         hidden.append([loaded, regs])
     removed = sorted(m.removed.values())
